@@ -50,21 +50,36 @@ type faultPlan struct {
 	// Withhold bytes asked for (0: the first half).  A request of at most
 	// Withhold bytes delivers its first half.
 	Withhold int `json:"withhold"`
+	// Deliver (with Partial, instead of Withhold): the failing ReadAt delivers
+	// exactly this many bytes (fewer if fewer were asked for, never all).
+	Deliver int `json:"deliver"`
 }
 
 // keep tells how many of the n bytes asked for come with the error.
 func (p faultPlan) keep(n int) int {
+	if p.Deliver > 0 {
+		return min(p.Deliver, n-1)
+	}
 	if p.Withhold > 0 && n > p.Withhold {
 		return n - p.Withhold
 	}
 	return n / 2
 }
 
-// flavours of a failing operation: no data, half of it, all but the last 16 / 64 / 256 bytes
-var readFlavours = []struct {
+// flavours of a failing operation: no data, half of it, all but the last 16 /
+// 64 / 256 bytes, and (reads only) exactly 1..8, 19, 20 or 21 bytes: less than
+// the short peeks of the scanner (5 for "%PDF-", 4 for "xref", 20 for a
+// cross-reference table entry, 3 for a #xx escape, 6 for "stream"/"endobj")
+type flavour struct {
 	partial  bool
 	withhold int
-}{{false, 0}, {true, 0}, {true, 16}, {true, 64}, {true, 256}}
+	deliver  int
+}
+
+var writeFlavours = []flavour{{false, 0, 0}, {true, 0, 0}, {true, 16, 0}, {true, 64, 0}, {true, 256, 0}}
+var readFlavours = append(append([]flavour{}, writeFlavours...),
+	flavour{true, 0, 1}, flavour{true, 0, 2}, flavour{true, 0, 3}, flavour{true, 0, 4}, flavour{true, 0, 5}, flavour{true, 0, 6},
+	flavour{true, 0, 7}, flavour{true, 0, 8}, flavour{true, 0, 19}, flavour{true, 0, 20}, flavour{true, 0, 21})
 
 func (p faultPlan) faulty(i int) bool {
 	switch p.Plan {
@@ -312,6 +327,37 @@ func deepDecode(c pdf.Cursor, o pdf.Object, _ bool) (string, error) {
 	return valueDigest(o), nil
 }
 
+// scanAll is the scenario's first call: pdf.SequentialScan and FileInfo.Read of
+// every object it lists that is not flagged broken.  The digest is the listing
+// with the values read; an error carrying the injected one ends the call.
+func scanAll(src io.ReaderAt, size int64, sentinel error) (string, error) {
+	fi, err := pdf.SequentialScan(src, size)
+	if err != nil {
+		return "", err
+	}
+	var b strings.Builder
+	fmt.Fprintf(&b, "v=%s;", fi.HeaderVersion)
+	for si, sec := range fi.Sections {
+		fmt.Fprintf(&b, "section %d: xref=%d trailer=%d startxref=%d eof=%d;", si, sec.XRefPos, sec.TrailerPos, sec.StartXRefPos, sec.EOFPos)
+		for _, o := range sec.Objects {
+			fmt.Fprintf(&b, "%d %d @%d broken=%v %s;", o.Number(), o.Generation(), o.ObjStart, o.Broken, o.Type)
+			if o.Broken {
+				continue
+			}
+			v, err := fi.Read(o)
+			switch {
+			case err == nil:
+				b.WriteString(valueDigest(v) + ";")
+			case errors.Is(err, sentinel):
+				return "", err
+			default:
+				fmt.Fprintf(&b, "read fails (malformed=%v);", pdf.IsMalformed(err))
+			}
+		}
+	}
+	return b.String(), nil
+}
+
 // wantsDecode: the scenario calls pdf.Decode on the first four composite objects.
 func wantsDecode(doc *shared.Doc, i int) bool {
 	n := 0
@@ -402,6 +448,9 @@ func (sc *readScenario) runReadCur(src *faultSrc, progress *atomic.Value) (outs 
 			outs = append(outs, callOut{ID: fmt.Sprintf("%s#%d", cur, oi), Call: cur, Cls: "err", msg: fmt.Sprintf("panic: %v", r), digest: "panic"})
 		}
 	}()
+	set("scan")
+	d0, err0 := scanAll(src, int64(len(sc.doc.Bytes)), src.err)
+	mk("scan", d0, err0)
 	set("open")
 	r, err := pdf.NewReader(src, int64(len(sc.doc.Bytes)), sc.doc.ReaderOptions(sc.mode))
 	if err != nil {
@@ -608,32 +657,36 @@ type docSpec struct {
 	// History, if not empty, asks for a file with incremental updates rendered
 	// by harness/indep/ser (see historyDoc) instead of a Writer-made document.
 	History string `json:"history,omitempty"`
+	// Special "boundary": objects over 1 kB whose #xx name escapes and `stream`
+	// keywords lie around the end of the scanner's 1024-byte buffer (see boundaryDoc).
+	Special string `json:"special,omitempty"`
 }
 
 func docSpecs(ctx *core.Ctx) []docSpec {
 	s := ctx.Seed * 1000
 	eol := []shared.BodyKind{shared.BodyEOL, shared.BodyCR, shared.BodyPlain, shared.BodyEOLEndstream, shared.BodyEndobj, shared.BodyEmpty}
 	specs := []docSpec{
-		{s + 1, shared.DocOptions{Version: pdf.V1_4, Seekable: true, Objects: 9, MinStreams: 2, Bodies: eol, Info: true}, "table-1.4", ""},
-		{s + 2, shared.DocOptions{Version: pdf.V1_7, XRefStream: true, ObjStm: true, Seekable: true, Objects: 10, Bodies: eol, Filters: shared.AllFilters, Info: true}, "xrefstream-objstm-filters", ""},
-		{s + 3, shared.DocOptions{Version: pdf.V1_6, Encrypt: true, Seekable: true, Objects: 8, Bodies: eol, Filters: []string{"Flate", "ASCII85"}, Info: true}, "table-1.6-aes128", ""},
-		{s + 4, shared.DocOptions{Version: pdf.V1_4, Seekable: false, Objects: 5, MinStreams: 2, Bodies: []shared.BodyKind{shared.BodyBig}, Info: false}, "table-1.4-noseek-indirect-length", ""},
+		{s + 1, shared.DocOptions{Version: pdf.V1_4, Seekable: true, Objects: 9, MinStreams: 2, Bodies: eol, Info: true}, "table-1.4", "", ""},
+		{s + 2, shared.DocOptions{Version: pdf.V1_7, XRefStream: true, ObjStm: true, Seekable: true, Objects: 10, Bodies: eol, Filters: shared.AllFilters, Info: true}, "xrefstream-objstm-filters", "", ""},
+		{s + 3, shared.DocOptions{Version: pdf.V1_6, Encrypt: true, Seekable: true, Objects: 8, Bodies: eol, Filters: []string{"Flate", "ASCII85"}, Info: true}, "table-1.6-aes128", "", ""},
+		{s + 4, shared.DocOptions{Version: pdf.V1_4, Seekable: false, Objects: 5, MinStreams: 2, Bodies: []shared.BodyKind{shared.BodyBig}, Info: false}, "table-1.4-noseek-indirect-length", "", ""},
 	}
 	// incremental updates: two or three small revisions, every one changing values
 	specs = append(specs,
 		docSpec{Seed: s + 20, Name: "history-table-table", History: "table-table"},
-		docSpec{Seed: s + 21, Name: "history-stream-stream-stream", History: "stream-stream-stream"})
+		docSpec{Seed: s + 21, Name: "history-stream-stream-stream", History: "stream-stream-stream"},
+		docSpec{Seed: s + 30, Name: "buffer-boundary", Special: "boundary"})
 	if ctx.Thorough() {
 		specs = append(specs,
 			docSpec{Seed: s + 22, Name: "history-table-table-table", History: "table-table-table"},
 			docSpec{Seed: s + 23, Name: "history-stream-stream", History: "stream-stream"},
 			docSpec{Seed: s + 24, Name: "history-table-table-b", History: "table-table"})
 		specs = append(specs,
-			docSpec{s + 5, shared.DocOptions{Version: pdf.V2_0, XRefStream: true, ObjStm: true, Encrypt: true, Seekable: false, Objects: 12, Bodies: shared.AllBodies, Filters: shared.AllFilters, Info: true}, "2.0-aes256-objstm-noseek", ""},
-			docSpec{s + 6, shared.DocOptions{Version: pdf.V1_3, Encrypt: true, Seekable: true, Objects: 10, Bodies: eol, Filters: []string{"LZW", "RunLength", "ASCIIHex"}}, "table-1.3-rc4", ""},
-			docSpec{s + 7, shared.DocOptions{Version: pdf.V1_5, XRefStream: true, Seekable: true, Objects: 14, Bodies: shared.AllBodies, Info: true}, "xrefstream-1.5-plain", ""},
-			docSpec{s + 8, shared.DocOptions{Version: pdf.V1_7, Seekable: true, Objects: 14, Bodies: shared.AllBodies, Filters: []string{"Flate"}, Info: true}, "table-1.7-pretty", ""},
-			docSpec{s + 9, shared.DocOptions{Version: pdf.V1_2, Seekable: false, Objects: 10, Bodies: []shared.BodyKind{shared.BodyBig, shared.BodyEOL, shared.BodyEOLEndstream}, Filters: []string{"ASCIIHex"}}, "table-1.2-noseek", ""})
+			docSpec{s + 5, shared.DocOptions{Version: pdf.V2_0, XRefStream: true, ObjStm: true, Encrypt: true, Seekable: false, Objects: 12, Bodies: shared.AllBodies, Filters: shared.AllFilters, Info: true}, "2.0-aes256-objstm-noseek", "", ""},
+			docSpec{s + 6, shared.DocOptions{Version: pdf.V1_3, Encrypt: true, Seekable: true, Objects: 10, Bodies: eol, Filters: []string{"LZW", "RunLength", "ASCIIHex"}}, "table-1.3-rc4", "", ""},
+			docSpec{s + 7, shared.DocOptions{Version: pdf.V1_5, XRefStream: true, Seekable: true, Objects: 14, Bodies: shared.AllBodies, Info: true}, "xrefstream-1.5-plain", "", ""},
+			docSpec{s + 8, shared.DocOptions{Version: pdf.V1_7, Seekable: true, Objects: 14, Bodies: shared.AllBodies, Filters: []string{"Flate"}, Info: true}, "table-1.7-pretty", "", ""},
+			docSpec{s + 9, shared.DocOptions{Version: pdf.V1_2, Seekable: false, Objects: 10, Bodies: []shared.BodyKind{shared.BodyBig, shared.BodyEOL, shared.BodyEOLEndstream}, Filters: []string{"ASCIIHex"}}, "table-1.2-noseek", "", ""})
 	}
 	return specs
 }
@@ -645,17 +698,17 @@ func writeSpecs(ctx *core.Ctx) []docSpec {
 	s := ctx.Seed*1000 + 500
 	big := []shared.BodyKind{shared.BodyBig}
 	specs := []docSpec{
-		{s + 1, shared.DocOptions{Version: pdf.V1_4, Seekable: true, Objects: 16, MinStreams: 3, Bodies: big, Info: true}, "w-table-seekable", ""},
-		{s + 2, shared.DocOptions{Version: pdf.V1_4, Seekable: false, Objects: 16, MinStreams: 3, Bodies: big, Info: true}, "w-table-nonseekable", ""},
-		{s + 3, shared.DocOptions{Version: pdf.V1_7, XRefStream: true, ObjStm: true, Seekable: true, Objects: 20, MinStreams: 3, Bodies: big, Filters: []string{"ASCIIHex", "Flate"}}, "w-xrefstream-objstm-seekable", ""},
-		{s + 4, shared.DocOptions{Version: pdf.V1_6, Encrypt: true, Seekable: false, Objects: 14, MinStreams: 3, Bodies: big, Filters: []string{"ASCII85"}, Info: true}, "w-aes128-nonseekable", ""},
+		{s + 1, shared.DocOptions{Version: pdf.V1_4, Seekable: true, Objects: 16, MinStreams: 3, Bodies: big, Info: true}, "w-table-seekable", "", ""},
+		{s + 2, shared.DocOptions{Version: pdf.V1_4, Seekable: false, Objects: 16, MinStreams: 3, Bodies: big, Info: true}, "w-table-nonseekable", "", ""},
+		{s + 3, shared.DocOptions{Version: pdf.V1_7, XRefStream: true, ObjStm: true, Seekable: true, Objects: 20, MinStreams: 3, Bodies: big, Filters: []string{"ASCIIHex", "Flate"}}, "w-xrefstream-objstm-seekable", "", ""},
+		{s + 4, shared.DocOptions{Version: pdf.V1_6, Encrypt: true, Seekable: false, Objects: 14, MinStreams: 3, Bodies: big, Filters: []string{"ASCII85"}, Info: true}, "w-aes128-nonseekable", "", ""},
 	}
 	if ctx.Thorough() {
 		specs = append(specs,
-			docSpec{s + 5, shared.DocOptions{Version: pdf.V2_0, XRefStream: true, ObjStm: true, Encrypt: true, Seekable: true, Objects: 30, MinStreams: 5, Bodies: big, Filters: shared.AllFilters, Info: true}, "w-2.0-aes256-seekable", ""},
-			docSpec{s + 6, shared.DocOptions{Version: pdf.V1_7, Seekable: true, Objects: 40, MinStreams: 8, Bodies: big, Info: true}, "w-pretty-seekable", ""},
-			docSpec{s + 7, shared.DocOptions{Version: pdf.V1_5, XRefStream: true, Seekable: false, Objects: 40, MinStreams: 8, Bodies: big, Filters: []string{"LZW"}}, "w-xrefstream-nonseekable", ""},
-			docSpec{s + 8, shared.DocOptions{Version: pdf.V1_3, Encrypt: true, Seekable: true, Objects: 24, MinStreams: 6, Bodies: big}, "w-rc4-seekable", ""})
+			docSpec{s + 5, shared.DocOptions{Version: pdf.V2_0, XRefStream: true, ObjStm: true, Encrypt: true, Seekable: true, Objects: 30, MinStreams: 5, Bodies: big, Filters: shared.AllFilters, Info: true}, "w-2.0-aes256-seekable", "", ""},
+			docSpec{s + 6, shared.DocOptions{Version: pdf.V1_7, Seekable: true, Objects: 40, MinStreams: 8, Bodies: big, Info: true}, "w-pretty-seekable", "", ""},
+			docSpec{s + 7, shared.DocOptions{Version: pdf.V1_5, XRefStream: true, Seekable: false, Objects: 40, MinStreams: 8, Bodies: big, Filters: []string{"LZW"}}, "w-xrefstream-nonseekable", "", ""},
+			docSpec{s + 8, shared.DocOptions{Version: pdf.V1_3, Encrypt: true, Seekable: true, Objects: 24, MinStreams: 6, Bodies: big}, "w-rc4-seekable", "", ""})
 	}
 	return specs
 }
@@ -700,11 +753,11 @@ type stats struct {
 }
 
 func run(ctx *core.Ctx) error {
-	ctx.Ev.Rule = "one evaluation = one run of a scenario (read: NewReader in one mode, Get of every object, DecodeStream+drain of every stream, up to 4 pdf.Decode calls; " +
+	ctx.Ev.Rule = "one evaluation = one run of a scenario (read: SequentialScan + FileInfo.Read of every listed object, NewReader in one mode, Get of every object, DecodeStream+drain of every stream, up to 4 pdf.Decode calls; " +
 		"write: the whole Writer session of the document) under one fault plan; distinct = distinct (side, mode, call kind, site of the failed operation, plan, outcome class) combinations"
 	ctx.Ev.Assume("TLC evaluates IOFault.tla faithfully; the Ref operators state property C19")
 	ctx.Ev.Assume("fault-free outcomes are compared by digests: values by structure (stream extents through their decoded bytes), Reader meta data by version, catalog pages, Info title, ID, trailer keys and number of reported errors")
-	ctx.Ev.Assume("the faulty operation returns the sentinel error with no data, with the first half of the data, or with all but the last 16 / 64 / 256 bytes")
+	ctx.Ev.Assume("the faulty operation returns the sentinel error with no data, with the first half of the data, with all but the last 16 / 64 / 256 bytes, or (reads) with exactly 1..8, 19, 20, 21 bytes")
 
 	cfg := "MC_IOFault_q.cfg"
 	if ctx.Thorough() {
@@ -746,7 +799,7 @@ func run(ctx *core.Ctx) error {
 			nr += n
 			runs = append(runs, rr...)
 		}
-		ctx.Logf("%s (seed %d): %d bytes; %d ReadAt calls over the three modes; all positions x {failFrom, failOnly} x {no data, half, all but the last 16/64/256 bytes}", sp.Name, sp.Seed, len(doc.Bytes), nr)
+		ctx.Logf("%s (seed %d): %d bytes; %d ReadAt calls over the three modes; all positions x {failFrom, failOnly} x {no data, half, all but the last 16/64/256 bytes, exactly 1..8/19/20/21 bytes}", sp.Name, sp.Seed, len(doc.Bytes), nr)
 	}
 	for _, sp := range writeSpecs(ctx) {
 		di := len(specs)
@@ -798,7 +851,7 @@ func run(ctx *core.Ctx) error {
 	ctx.Ev.Set("faults_at_error_ignoring_helpers_call_returned_error", st.ignoredEr)
 	ctx.Ev.Exhaustive = hangs.Load() < maxHangs
 	ctx.Ev.Set("runs_that_hung", int(hangs.Load()))
-	ctx.Ev.Set("exhaustive_scope", "per generated document and scenario: every index k of a ReadAt / Write / Seek call, both plans, the failing operation delivering nothing, the first half, or all but the last 16 / 64 / 256 bytes; the documents are seeded samples")
+	ctx.Ev.Set("exhaustive_scope", "per generated document and scenario: every index k of a ReadAt / Write / Seek call, both plans, the failing operation delivering nothing, the first half, all but the last 16 / 64 / 256 bytes, or (reads) exactly 1..8, 19, 20, 21 bytes; the documents are seeded samples")
 	return nil
 }
 
@@ -822,7 +875,7 @@ func enumerateRead(ctx *core.Ctx, sp docSpec, di int, doc *shared.Doc, mode pdf.
 	for k := 1; k <= n+1; k++ { // n+1: a fault that is never reached
 		for _, p := range []string{"failFrom", "failOnly"} {
 			for _, fl := range readFlavours {
-				jobs = append(jobs, job{faultPlan{p, k, fl.partial, fl.withhold}})
+				jobs = append(jobs, job{faultPlan{p, k, fl.partial, fl.withhold, fl.deliver}})
 			}
 		}
 	}
@@ -929,6 +982,8 @@ func callIndexOfReads(sc *readScenario, doc *shared.Doc, n int) []string {
 	}
 	func() {
 		defer func() { recover() }()
+		scanAll(src, int64(len(doc.Bytes)), src.err)
+		snap("scan#0")
 		r, err := pdf.NewReader(src, int64(len(doc.Bytes)), doc.ReaderOptions(sc.mode))
 		snap("open#0")
 		if err != nil {
@@ -975,8 +1030,8 @@ func enumerateWrite(ctx *core.Ctx, sp docSpec, di int, st *stats) ([]readRun, in
 	var out []readRun
 	for k := 1; k <= n+1; k++ {
 		for _, p := range []string{"failFrom", "failOnly"} {
-			for _, fl := range readFlavours {
-				fs := &faultSink{plan: faultPlan{p, k, fl.partial, fl.withhold}, err: &injected{fmt.Sprintf("%s/%d", p, k)}}
+			for _, fl := range writeFlavours {
+				fs := &faultSink{plan: faultPlan{p, k, fl.partial, fl.withhold, 0}, err: &injected{fmt.Sprintf("%s/%d", p, k)}}
 				outs, data := runWrite(plan, fs)
 				rr := readRun{Side: "write", Doc: sp.Name, Mode: map[bool]string{true: "seekable", false: "non-seekable"}[sp.Opt.Seekable], Plan: fs.plan, Hit: fs.hit,
 					Calls: []callOut{}, Outs: outs, Count: 1, docIx: di}
@@ -1035,7 +1090,7 @@ func judge(ctx *core.Ctx, runs []readRun) ([]int, error) {
 
 func runSig(r readRun) string {
 	var b strings.Builder
-	fmt.Fprintf(&b, "%s|%s|%s|%s|%v/%d|%v|%s|%s|%s|", r.Side, r.Doc, r.Mode, r.Plan.Plan, r.Plan.Partial, r.Plan.Withhold, r.Hit, r.At, r.Via, r.In)
+	fmt.Fprintf(&b, "%s|%s|%s|%s|%v/%d/%d|%v|%s|%s|%s|", r.Side, r.Doc, r.Mode, r.Plan.Plan, r.Plan.Partial, r.Plan.Withhold, r.Plan.Deliver, r.Hit, r.At, r.Via, r.In)
 	for _, c := range r.Calls {
 		fmt.Fprintf(&b, "%s%s%v%v%v,", c.Call, c.Cls, c.Same, c.Carries, c.Malformed)
 	}
@@ -1189,7 +1244,7 @@ func describe(r readRun) string {
 			r.Mode, r.Plan.K, r.Plan.Plan, r.At, r.Via, r.Outs[0].Call, r.Outs[0].Cls)
 	}
 	c := r.Calls[0]
-	s := fmt.Sprintf("mode %s, plan %s(%d) data-with-error=%v withheld-tail=%d (first failing ReadAt issued by %s", r.Mode, r.Plan.Plan, r.Plan.K, r.Plan.Partial, r.Plan.Withhold, r.At)
+	s := fmt.Sprintf("mode %s, plan %s(%d) data-with-error=%v withheld-tail=%d delivered=%d (first failing ReadAt issued by %s", r.Mode, r.Plan.Plan, r.Plan.K, r.Plan.Partial, r.Plan.Withhold, r.Plan.Deliver, r.At)
 	if r.Via != "" {
 		s += " under " + r.Via
 	}
